@@ -70,8 +70,8 @@ def fold_module_constants(mod) -> dict:
             if isinstance(a, str) and isinstance(b, str):
                 return a + b
             return UNKNOWN
-        if isinstance(e, ast.Call) and isinstance(e.func, ast.Name) and e.func.id == "object" and not e.args:
-            return ("<object()>", id(e))
+        if isinstance(e, ast.Call) and isinstance(e.func, ast.Name) and ((e.func.id == "object" and not e.args) or e.func.id in mod.classes):
+            return ("<object()>", id(e))  # an identity sentinel (bare object() or an instance of a local marker class)
         if isinstance(e, ast.Call) and isinstance(e.func, ast.Name) and e.func.id in ("list", "tuple") and len(e.args) == 1:
             v = ev(e.args[0])
             return list(v) if isinstance(v, (list, tuple)) else UNKNOWN
